@@ -367,7 +367,10 @@ THOROUGH_CFGS = [("CallableRoutes.thorough1.cfg", None, False),
                  ("CallableRoutes.thoroughself.cfg", 25000, False), ("CallableRoutes.thoroughpc.cfg", 20000, False),
                  ("CallableRoutes.thoroughtyped.cfg", 25000, False)]
 SENSITIVITY = [("CallableRoutes.sens_first.cfg", "OverrideSound"), ("CallableRoutes.sens_child.cfg", "OverrideSound"),
-               ("CallableRoutes.sens_callable.cfg", "CallableParamSound"), ("CallableRoutes.strict.cfg", "ProtocolSoundStrict")]
+               ("CallableRoutes.sens_callable.cfg", "CallableParamSound"),
+               # the behaviour before /repo a15c614 (a method that cannot receive the instance accepted for a protocol)
+               ("CallableRoutes.sens_protocol.cfg", "ProtocolSound"),
+               ("CallableRoutes.strict.cfg", "ProtocolSoundStrict")]
 
 
 def _sample_by_route(res: core.TLCResult, limit: Optional[int], rnd: random.Random) -> tuple[list[dict], int]:
@@ -521,21 +524,24 @@ def selftest() -> None:
         other("protocol", M([S, P("pk", "a")]), K([S, P("pk", "a"), P("pk", "b", True)])),
         other("protocol", M([S]), K([], selfk="none")),
         other("protocol", M([P("po", "self"), P("vk", "a")], selfk="po"), K([S, P("vk", "a")])),
+        other("protocol", M([S]), K([], selfk="none")),
     ]
     obs = observe(cases, random.Random(0), n_fresh=0)
     obs.sort(key=lambda o: o["tid"])
     names = ["unchanged C(B1, B2) reported against B2", "the report against the second base dropped (stop at the nearest base)",
              "rejected Callable[[Any], Any] <- g(a, b) recorded as accepted", "return type widened in the override, recorded as accepted",
-             "a shape CPython bound for K.f removed", "protocol member without self", "receiver also passed as keyword self"]
-    if obs[0]["real"]["report"] != 2 or obs[2]["real"]["verdict"] != "err" or obs[3]["real"]["verdict"] != "err":
+             "a shape CPython bound for K.f removed", "protocol member without self (rejected since /repo a15c614)",
+             "receiver also passed as keyword self", "protocol member without self recorded as accepted (the old behaviour)"]
+    if obs[0]["real"]["report"] != 2 or any(obs[j]["real"]["verdict"] != "err" for j in (2, 3, 5, 7)):
         raise core.MachineryError(f"routes self-test: unexpected real verdicts {[o['real'] for o in obs]}")
     obs[1] = dict(obs[1], real=accepted)
     obs[2] = dict(obs[2], real=accepted)
     obs[3] = dict(obs[3], real=accepted)
     obs[4] = dict(obs[4], gb=obs[4]["gb"][1:])
+    obs[7] = dict(obs[7], real=accepted)
     expect = {0: [], 1: ["viol:OverrideSound", "drift:verdict"], 2: ["viol:CallableParamSound", "drift:verdict"],
               3: ["viol:TypesSound-override", "drift:verdict"], 4: ["oracle:actual-binds"],
-              5: ["dev:protocol-member-without-self"], 6: ["dev:keyword-also-positional"]}
+              5: [], 6: ["dev:keyword-also-positional"], 7: ["viol:ProtocolSound", "drift:verdict"]}
     verdicts, _ = core.adjudicate("CallableRoutesTrace", "CallableRoutesTrace.cfg", obs)
     for o, name in zip(obs, names):
         got = verdicts.get(o["tid"], [])
